@@ -179,7 +179,7 @@ func checkC06(p *Prog, res *Result, tier string) {
 	{
 		sub7 := p.subResult("C07", tier)
 		for _, o := range sub7.Obls {
-			if o.Rule == "C07-R3" || o.Rule == "C07-R4" {
+			if o.Rule == "C07-R3" || o.Rule == "C07-R4" || o.Rule == "C07-R2" {
 				res.add("C06-R6", o.Rule+" "+o.Construct, o.Status, o.Pos, o.Detail)
 			}
 		}
